@@ -65,6 +65,13 @@ CHECKS = {
             "unconstrained solver integer. Asserted: no exception, the result admits everything the input admitted (witness values stay "
             "members), and without the documented trigger the type is unchanged.",
             TRUST + "The structural 'admits' relation and the trigger predicates are part of the trusted oracle.", "DESIGN.md#C07"),
+    "C08": (True, "model_checking",
+            "symbolic execution of encode/decode on tape-decoded types, inferred types (k symbolic) and call traces (CrossHair+z3); struct_eq and byte-identical-JSON oracles",
+            "Round trips through the real JSON encoders/decoders for every type shape of the grammar, every type inferred from pairs of grammar "
+            "values for every k, their default-rewritten forms, and call traces of every fixture function kind with return/yield absent, "
+            "NoneType or a type; decoded types are compared structurally (never with ==), encoding determinism is checked against an "
+            "independently rebuilt twin type.",
+            TRUST + "json / importlib are C and IO boundaries (concrete per path).", "DESIGN.md#C08"),
 }
 
 NOT_APPLICABLE = {
